@@ -108,7 +108,45 @@ def do_run(sid, props):
     json.dump(meta, open(os.path.join(dst, "meta.json"), "w"), indent=1)
 
 
+def do_runwt(sid, props, jobs=6):
+    """like run, but in a scratch worktree of /repo HEAD selected through PYTHONPATH (several seeds can be examined in parallel and /repo
+    itself is never modified); the checks are the same driver with the same arguments"""
+    dst = os.path.join(V, "seeded", sid)
+    meta = json.load(open(os.path.join(dst, "meta.json")))
+    props = props or [meta["property"]]
+    W = f"/tmp/mx/{sid}"
+    os.makedirs("/tmp/mx", exist_ok=True)
+    sh(f"git -C /repo worktree remove --force {W}")
+    shutil.rmtree(W, ignore_errors=True)
+    rc, out = sh(f"git -C /repo worktree add -q --detach {W} HEAD")
+    assert rc == 0, out
+    res = meta.setdefault("checks", {})
+    try:
+        rc, out = sh(f"git apply {dst}/patch.diff", cwd=W)
+        if rc != 0:
+            print(sid, "patch does not apply", out[-300:])
+            return
+        env = f"PYTHONPATH={V}:{W} PYTHONDONTWRITEBYTECODE=1 PYTHONHASHSEED=0 OMP_NUM_THREADS=1 OPENBLAS_NUM_THREADS=1 MKL_NUM_THREADS=1"
+        for p in props:
+            t0 = time.time()
+            rc, out = sh(f"{env} {V}/.venv/bin/python -m symx.driver {p} --tier quick --no-evidence --jobs {jobs}", cwd=V, timeout=3600)
+            lines = out.splitlines()
+            viol = [l for l in lines if l.startswith("VIOLATION")]
+            first = lines[lines.index(viol[0]) + 1][:300] if viol and lines.index(viol[0]) + 1 < len(lines) else ""
+            res[p] = dict(exit=rc, violations=len(viol), first=first, wall_s=round(time.time() - t0, 1),
+                          summary=out.strip().splitlines()[-1][:300] if out.strip() else "", how="scratch worktree via PYTHONPATH")
+            print(sid, p, "exit", rc, "violations", len(viol), first[:160], flush=True)
+    finally:
+        sh(f"git -C /repo worktree remove --force {W}")
+        shutil.rmtree(W, ignore_errors=True)
+    meta["detected_by"] = sorted(p for p, r in res.items() if r["exit"] == 1)
+    json.dump(meta, open(os.path.join(dst, "meta.json"), "w"), indent=1)
+
+
 if __name__ == "__main__":
+    if sys.argv[1] == "runwt":
+        do_runwt(sys.argv[2], sys.argv[3:])
+        sys.exit(0)
     if sys.argv[1] == "import":
         do_import(sys.argv[2], sys.argv[3], int(sys.argv[4]) if len(sys.argv) > 4 else 0)
     elif sys.argv[1] == "run":
